@@ -2,7 +2,7 @@
 from sa.core import rule, prop_info
 from sa.lib import *  # noqa: F401,F403
 from sa.lib import attr_stores, func_calls, lock_regions, enclosing_tries, loop_anchor, ReachingDefs
-from sa.model import AnchorMissing, kwarg
+from sa.model import AnchorMissing, kwarg, _unconditional_calls
 from sa import roles
 
 C = roles.CLIENT
@@ -306,9 +306,22 @@ def error_matching(ctx):
         # the catch-all key None (the slot of the ONE request with an unknown action) is tried only for a message that can not
         # belong to a known request: a non-error message, or the error of an action that is not in REQUEST2REPLY
         mapped = {t.id for n in body_walk(unit.node) if isinstance(n, ast.Assign) and any(x in maps for x in ast.walk(n.value)) for t in n.targets if isinstance(t, ast.Name)}
-        unknown_side = sides_with_fact(ucfg, lambda a, tv: not tv and isinstance(a, ast.Name) and a.id in mapped)
+        def unknown(a, tv):
+            if isinstance(a, ast.Name):
+                return not tv and a.id in mapped
+            if isinstance(a, ast.Compare) and len(a.ops) == 1 and isinstance(a.left, ast.Name) and a.left.id in mapped \
+                    and isinstance(a.comparators[0], ast.Constant) and a.comparators[0].value is None:
+                return (tv and isinstance(a.ops[0], ast.Is)) or (not tv and isinstance(a.ops[0], ast.IsNot))
+            return False
+        unknown_side = sides_with_fact(ucfg, unknown)
+
+        def only_for_unknown(ids):
+            # every way to the statement leaves a test on its not-an-error side or on the side where the mapping found nothing
+            return bool(ids) and paths_need_fact(ucfg, [ucfg.entry], list(ids), lambda a, tv: not_error(a, tv) or unknown(a, tv))
         nones = []
         for n in body_walk(unit.node):
+            if isinstance(n, ast.Expr) and isinstance(n.value, ast.Yield) and isinstance(n.value.value, ast.Constant) and n.value.value.value is None:
+                nones.append(n)         # a generator of the keys to try: `yield None` is the catch-all key
             if isinstance(n, ast.Assign) and isinstance(n.value, ast.Constant) and n.value.value is None and any(isinstance(t, ast.Name) and 'key' in t.id for t in n.targets):
                 nones.append(n)
             if isinstance(n, ast.Expr) and isinstance(n.value, ast.Call) and call_attr(n.value) in ('append', 'pop') and n.value.args and \
@@ -320,14 +333,14 @@ def error_matching(ctx):
         expr_fallback = [x for x in body_walk(unit.node) if isinstance(x, ast.IfExp) and isinstance(x.test, ast.Name) and x.test.id in mapped
                          and isinstance(x.orelse, ast.Constant) and x.orelse.value is None]
         for g in [x for x in maps if isinstance(x, ast.Call)]:
-            fallback = [n for n in nones if set(ucfg.ids(n)) and set(ucfg.ids(n)) <= unknown_side] + expr_fallback
+            fallback = [n for n in nones if set(ucfg.ids(n)) and (set(ucfg.ids(n)) <= unknown_side or only_for_unknown(set(ucfg.ids(n))))] + expr_fallback
             ctx.check(bool(fallback), f'{fi.qualname}:error of an unknown action reaches the catch-all slot', g, 'None key tried when the action is not in REQUEST2REPLY',
                       f'`{src(g)}` yields None for an action that is not in REQUEST2REPLY, and that None ends up inside the key (`(None, ident)`) instead of the '
                       'catch-all key None: the error reply to a request with an unknown action is never delivered, its caller waits for the time-out', unit)
         for n in nones:
             ids = set(ucfg.ids(n))
             in_keyerror = any(part == 'handler' and any(x in maps for st in t.body for x in ast.walk(st)) for t, part in enclosing_tries(n))
-            ok = bool(ids) and (ids <= noerr_side or ids <= unknown_side or in_keyerror)
+            ok = bool(ids) and (ids <= noerr_side or ids <= unknown_side or in_keyerror or only_for_unknown(ids))
             if not ok and isinstance(n, ast.Assign):
                 # a default (`key = None` in front of the error test): harmless when it is overwritten on the error side - every
                 # path on which THIS binding reaches a pop leaves the error test on its not-an-error side
@@ -371,6 +384,14 @@ def cleanup_removes_by_identity(ctx):
                                              any('active_requests' in src(gen.iter) and
                                                  any(isinstance(t, ast.Compare) and len(t.ops) == 1 and isinstance(t.ops[0], ast.Is) for t in gen.ifs) for gen in g.generators)
                                              for g in ast.walk(v)):
+                        ok = True
+            if not ok and isinstance(c, ast.Call) and c.args and isinstance(c.args[0], ast.Name):
+                # `for key in [k for k, prev in snapshot if prev is timed_out][:1]: pop(key)`: the keys come out of an identity filter
+                for a in ancestors(c):
+                    if isinstance(a, ast.For) and isinstance(a.target, ast.Name) and a.target.id == c.args[0].id and \
+                            any(isinstance(g, (ast.GeneratorExp, ast.ListComp)) and
+                                any(any(isinstance(t, ast.Compare) and len(t.ops) == 1 and isinstance(t.ops[0], ast.Is) for t in gen.ifs)
+                                    and 'active_requests' in src(resolved(gen.iter, rx.node)) for gen in g.generators) for g in ast.walk(a.iter)):
                         ok = True
             ctx.check(ok, f'{rx.qualname}:cleanup by identity', c, 'removal guarded by `prev is entry`',
                       f'`{src(c)}` removes the entry found under the key of the timed-out request without checking that it is that request: a newer '
@@ -559,6 +580,13 @@ def caller_path_obligations(ctx):
     cfg = CFG(g.node, m, g.module)
     e = g.node.args.args[1].arg
     n = 0
+    raised_names = {x.exc.id for x in body_walk(g.node) if isinstance(x, ast.Raise) and isinstance(x.exc, ast.Name)}
+
+    def raising(kind):
+        # `raise <Kind>(...)`, or `error = <Kind>(...)` where `raise error` ends the method
+        return {i for x in body_walk(g.node) if (isinstance(x, ast.Raise) and x.exc is not None and kind in src(x.exc)) or
+                (isinstance(x, ast.Assign) and len(x.targets) == 1 and isinstance(x.targets[0], ast.Name) and x.targets[0].id in raised_names
+                 and kind in src(x.value)) for i in cfg.ids(x)}
     for t in cfg.nodes:
         if t.kind != 'test':
             continue
@@ -567,7 +595,7 @@ def caller_path_obligations(ctx):
             n += 1
             side, label = _side(cfg, t, False)            # wait() returned False: timed out
             cl = {i for c in calls_in(g.node) if call_attr(c) == 'append' and 'cleanup' in src(c.func) for i in cfg.node_of(c)}
-            to = {i for x in body_walk(g.node) if isinstance(x, ast.Raise) and x.exc is not None and 'TimeoutError' in src(x.exc) for i in cfg.ids(x)}
+            to = raising('TimeoutError')
             ok = bool(cl) and cl <= side and bool(to) and to <= side and side_never_completes(cfg, t.id, label)
             ctx.check(ok, f'{g.qualname}:timed-out wait registers for clean-up and raises TimeoutError', t.ast, 'on the side where wait() is false',
                       f'`{src(t.ast)}`: on the side where the wait timed out the entry is not handed to the clean-up list / no TimeoutError is raised '
@@ -575,7 +603,7 @@ def caller_path_obligations(ctx):
         if core == f'{e}[2]':
             n += 1
             side, label = _side(cfg, t, False)            # no reply stored
-            ce = {i for x in body_walk(g.node) if isinstance(x, ast.Raise) and x.exc is not None and 'ConnectionError' in src(x.exc) for i in cfg.ids(x)}
+            ce = raising('ConnectionError')
             ok = bool(ce) and ce <= side and side_never_completes(cfg, t.id, label)
             ctx.check(ok, f'{g.qualname}:released without reply raises ConnectionError', t.ast, 'on the side where no reply was stored',
                       f'`{src(t.ast)}`: an entry released by disconnect (no reply stored) does not raise ConnectionError on that side', g)
@@ -752,3 +780,29 @@ def one_connect_at_a_time(ctx):
                   'open a connection and start worker threads - one connection and one transmit thread are left over, disconnect() may hang', f)
     if n < 3:
         raise AnchorMissing('creation of the connection / queues / worker threads not found in SecopClient.connect')
+
+
+@rule('C11.R16', min_instances=1)
+def the_reconnect_loop_asks_for_shutdown_before_every_attempt(ctx):
+    """the reconnect thread (the thread entry whose loop calls connect()): the condition of that loop evaluates the shutdown
+    event (`_shutdown.is_set()` / `_shutdown.wait(..)`) UNCONDITIONALLY in every round - behind `pause and ...` it is skipped
+    whenever the pause is 0 (the first attempt), and a client that was shut down meanwhile is connected again: its requests
+    are then answered although disconnect() was called, and nobody ever closes that connection"""
+    m = ctx.m
+    n = 0
+    for name, f in sorted(_thread_entries(m).items()):
+        loops = [w for w in body_walk(f.node) if isinstance(w, ast.While) and any(call_attr(c) == 'connect' for c in calls_in(w))]
+        for w in loops:
+            n += 1
+            ctx.analysed(f)
+            asks = [c for c in ast.walk(w.test) if isinstance(c, ast.Call) and call_attr(c) in ('is_set', 'wait') and '_shutdown' in src(c.func)]
+            if not asks:
+                ctx.undecided(f'{f.qualname}:shutdown is asked in every round', w, f'`while {src(w.test)}`: no test of the shutdown event in the loop condition', f)
+                continue
+            uncond = {id(c) for c in _unconditional_calls(w.test, top=False)} | ({id(w.test)} if isinstance(w.test, ast.Call) else set())
+            ok = any(id(c) in uncond for c in asks)
+            ctx.check(ok, f'{f.qualname}:shutdown is asked in every round', w, f'`{src(asks[0])}` is evaluated in every round',
+                      f'`while {src(w.test)}`: the shutdown event is only looked at behind a short-circuit operand - whenever that operand is falsy (a pause of 0 '
+                      'before the first attempt) the loop goes on and connects a client that was shut down meanwhile', f)
+    if not n:
+        raise AnchorMissing('reconnect loop (a while loop calling connect() in a thread entry of SecopClient) not found')
